@@ -31,7 +31,7 @@ by the runner as a broken obligation) and leaves the previous GenAbc.v in place.
 import os
 import re
 
-REPO = "/repo"
+REPO = os.environ.get("VERIF_REPO", "/repo").rstrip("/") or "/repo"   # same override as vlib/common.py
 VERIF = os.path.dirname(os.path.dirname(os.path.abspath(__file__)))
 OUT = os.path.join(VERIF, "coq", "encode", "GenAbc.v")
 
